@@ -43,13 +43,13 @@ var intrinsicSet = map[string]bool{
 	"log.Printf": true, "log.Println": true, "log.Print": true,
 	"log/slog.Default": true, "(*log/slog.Logger).Error": true, "(*log/slog.Logger).Info": true, "(*log/slog.Logger).Warn": true, "(*log/slog.Logger).Debug": true,
 	"log/slog.Error": true, "log/slog.Info": true, "log/slog.Warn": true,
-	"strings.HasSuffix": true, "strings.TrimSuffix": true, "strings.HasPrefix": true,
+	"strings.HasSuffix": true, "strings.TrimSuffix": true, "strings.HasPrefix": true, "strings.Join": true, "strings.Contains": true,
 	"runtime.Gosched": true,
 }
 
 func (ex *Exec) isIntrinsic(fn *ssa.Function) bool {
 	n := intrinsicName(fn)
-	if intrinsicSet[n] {
+	if intrinsicSet[n] || reflIntrinsics[n] {
 		return true
 	}
 	if fn.Pkg != nil && fn.Pkg.Pkg.Path() == vrtPkg {
@@ -97,6 +97,9 @@ func (ex *Exec) intrinsic(g *G, f *Frame, fn *ssa.Function, args []Value, call *
 		}
 		g.frames = append(g.frames, nf)
 		return nil, true // control transferred; frame return advances pc
+	}
+	if reflIntrinsics[n] {
+		return ex.reflIntrinsic(n, fn, args), false
 	}
 	switch n {
 	case "math.Abs":
@@ -243,6 +246,14 @@ func (ex *Exec) intrinsic(g *G, f *Frame, fn *ssa.Function, args []Value, call *
 		return nil, false
 	case "log/slog.Default":
 		return Ptr{P: new(Value)}, false
+	case "strings.Join":
+		var parts []string
+		for _, e := range args[0].(Slice).A {
+			parts = append(parts, strArg(e))
+		}
+		return Str{C: strings.Join(parts, strArg(args[1]))}, false
+	case "strings.Contains":
+		return Bool{C: strings.Contains(strArg(args[0]), strArg(args[1]))}, false
 	case "strings.HasSuffix":
 		return Bool{C: strings.HasSuffix(args[0].(Str).C, args[1].(Str).C)}, false
 	case "strings.HasPrefix":
@@ -595,6 +606,34 @@ func (ex *Exec) vrt(g *G, f *Frame, name string, fn *ssa.Function, args []Value)
 			return ex.symFloat(nm, bits), false
 		}
 		panic(unsupported{"vrt.Num of " + rt.String()})
+	case "Choice":
+		// a nondeterministic outcome in [0, n): a symbolic integer that is case-split
+		// at once (one path per value, feasibility decided by the solver)
+		n := int(ex.concInt(args[1], "vrt.Choice n"))
+		nm := strArg(args[0])
+		if len(args) > 2 {
+			if sl, ok := args[2].(Slice); ok {
+				for _, e := range sl.A {
+					nm += fmt.Sprintf("_%d", ex.concInt(e, "vrt name index"))
+				}
+			}
+		}
+		if ex.Concrete != nil {
+			v, ok := ex.Concrete[nm]
+			if !ok {
+				v = "0"
+			}
+			return mkInt(parseIntText(v, 64), 64, false), false
+		}
+		iv := Int{Bits: 64, T: ex.nondetVar(nm, SBV64)}
+		ts := ex.TS
+		ex.assume(ts.And(ts.BVCmp("bvsge", iv.T, ts.BVC(0, 64)), ts.BVCmp("bvslt", iv.T, ts.BVC(int64(n), 64))))
+		for k := 0; k < n-1; k++ {
+			if ex.decide(ts.Eq(iv.T, ts.BVC(int64(k), 64))) {
+				return mkInt(int64(k), 64, false), false
+			}
+		}
+		return mkInt(int64(n-1), 64, false), false
 	case "Bool":
 		if ex.Concrete != nil {
 			return Bool{C: ex.Concrete[ex.nameOf(args)] == "true"}, false
